@@ -683,11 +683,15 @@ def cssp_order(ctx, mir, stats):
         checked = True
         break
     if not checked:
+        if any(not o["ok"] for o in obs):
+            return obs
         raise Inconclusive("ENCODING-FAILED: no explored path reaches the comparison")
     # normal completion only after the third write returned Ok
     rs3 = result_switch(f, after[0])
     okb = stmt_blocks(f, r"_0 = Result::<\(\), model::error::Error>::Ok\(")
     if not rs3 or not okb:
+        if any(not o["ok"] for o in obs):
+            return obs
         raise Inconclusive("ENCODING-FAILED: final write result / Ok return not recognised")
     s3, t3 = rs3
     for b in okb:
@@ -2545,3 +2549,26 @@ def wire_sized_allocations(fn_regex, native):
             raise Inconclusive("ENCODING-FAILED: %s matched nothing" % fn_regex)
         return obs
     return fn
+
+
+PER_NATIVE = _native("verif_replay_per_readers", "src/core/per.rs", """
+        use std::io::Cursor;
+        // every reader on: every first byte, followed by 0, 1, 5 or 200 further bytes of several fillers
+        for b0 in 0u16..256 {
+            for tail in [0usize, 1, 5, 200].iter() {
+                for fill in [0u8, 0x7f, 0xff].iter() {
+                    let mut v = vec![b0 as u8];
+                    v.extend(std::iter::repeat(*fill).take(*tail));
+                    let _ = read_length(&mut Cursor::new(v.clone()));
+                    let _ = read_integer(&mut Cursor::new(v.clone()));
+                    let _ = read_integer_16(1001, &mut Cursor::new(v.clone()));
+                    let _ = read_object_identifier(&[0, 0, 20, 124, 0, 1], &mut Cursor::new(v.clone()));
+                    let _ = read_octet_stream(b"McDn", 4, &mut Cursor::new(v.clone()));
+                    let _ = read_octet_stream(b"McDn", 0, &mut Cursor::new(v.clone()));
+                    let _ = read_numeric_string(1, &mut Cursor::new(v.clone()));
+                    let _ = read_padding(*tail, &mut Cursor::new(v.clone()));
+                }
+            }
+        }""")
+
+PER_TARGETS = [(r"^read_(length|choice|selection|number_of_set|enumerates|integer|integer_16|object_identifier|numeric_string|padding|octet_stream)$", [])]
